@@ -2878,6 +2878,22 @@ def _sb_lemma_nbrsum(eng, st, node):
     return z3.Implies(hyp, z3.And(tsum(ixperm(G, V), k) == nbrsum(G, u, n), k == cnt1(z3.Select(G, u), n)))
 
 
+def _sb_lemma_nbrsum_renumber(eng, st, node):
+    """LEMMA (Lean: nbrsum_renum_cells, cnt_renum_cells): renumbering the nodes by a permutation.  lemma_nbrsum_renumber(G, H, p, n): p a permutation and
+    H[x][y] == G[p[x]][p[y]] for all nodes  =>  nbrsum(H, x, n) == nbrsum(G, p[x], n) and rcnt(H, x, n) == rcnt(G, p[x], n) for every node x."""
+    G = _term2(eng, st, eng.ev(node.args[0], st))
+    H = _term2(eng, st, eng.ev(node.args[1], st))
+    p = _term1i(eng, st, eng.ev(node.args[2], st))
+    n = to_z3(eng.ev(node.args[3], st), INT)
+    x, y = z3.Ints('x!nr y!nr')
+    inr_ = lambda t: z3.And(t >= 0, t < n)
+    sel = lambda M, a, b: z3.Select(z3.Select(M, a), b)
+    px, py = z3.Select(p, x), z3.Select(p, y)
+    hyp = z3.And(isperm(p, n), z3.ForAll([x, y], z3.Implies(z3.And(inr_(x), inr_(y)), sel(H, x, y) == sel(G, px, py))))
+    return z3.Implies(hyp, z3.ForAll([x], z3.Implies(inr_(x), z3.And(inr_(px), nbrsum(H, x, n) == nbrsum(G, px, n), _rcnt_term(H, x, n) == _rcnt_term(G, px, n))),
+                                     patterns=[nbrsum(H, x, n), _rcnt_term(H, x, n)]))
+
+
 def _sb_lemma_sdist_support(eng, st, node):
     """LEMMA (Lean: sdist_congr_support, walk_congr_support): the hop distance depends only on which entries are non-zero.  lemma_sdist_support(A, B, n):
     A[x][y] != 0 <=> B[x][y] != 0 for all nodes  =>  sdist(A, x, y) == sdist(B, x, y) for all nodes."""
@@ -3308,7 +3324,7 @@ SPEC_BUILTINS = {
     'dot2': _sb_dot2, 'isperm': _sb_isperm, 'same_object': _sb_same_object, 'unchanged': _sb_unchanged,
     'snapshot': _sb_snapshot, 'argref': _sb_argref, 'lam1': _sb_lam1, 'KCf': _sb_KCf, 'KNf': _sb_KNf, 'result_is_empty': _sb_result_is_empty, 'hopsint': _sb_hopsint, 'lam2': _sb_lam2, 'unique_witness': _sb_unique_witness, 'member': _sb_member, 'dset': _sb_dset(dset), 'rset': _sb_dset(rset), 'wset': _sb_dset(wset), 'cntb': _sb_cntb,
     'modsum': _mk_mod(modsum, 3), 'modsumT': _mk_mod(modsumT, 3), 'degsum': _mk_mod(degsum, 2), 'degsumT': _mk_mod(degsumT, 2), 'agg': _mk_mod(agg, 3),
-    'Qmod': _sb_Qmod, 'walk': _sb_walk, 'isint': (lambda eng, st, node: z3.IsInt(to_z3(eng.ev(node.args[0], st), REAL))), 'sdist': _sb_sdist, 'lemma_walks': _sb_lemma_walks, 'Qrawg': _sb_Qrawg, 'umul': _sb_umul, 'lemma_umul_linear': _sb_lemma_umul_linear, 'QrawB': _mk_mod(QrawB, 1), 'tsum': _mk_specfn(tsum, 1), 'csum': _mk_specfn(csum, 2), 'lemma_modularity': _sb_lemma_modularity, 'lemma_knm_sums': _sb_lemma_knm_sums, 'lemma_relabel': _sb_lemma_relabel, 'lemma_relabel_g': _sb_lemma_relabel_g, 'lemma_agg_compose': _sb_lemma_agg_compose, 'pathsum': _sb_pathsum, 'lemma_pathsum': _sb_lemma_pathsum, 'appended_value': (lambda eng, st, node: st.ghost['_append_last'][1]), 'lemma_reach_closed': _sb_lemma_reach_closed, 'Not': (lambda eng, st, node: z3.Not(truth(eng.ev(node.args[0], st)))), 'wd': _sb_wd, 'lemma_wd': _sb_lemma_wd, 'swalk': _sb_swalk, 'lemma_floyd': _sb_lemma_floyd, 'lemma_wd_triangle': _sb_lemma_wd_triangle, 'lemma_sdist_support': _sb_lemma_sdist_support, 'inverse_lengths': _sb_inverse_lengths, 'lemma_cells': _sb_lemma_cells, 'lemma_count_support': _sb_lemma_count_support, 'lemma_count_diag': _sb_lemma_count_diag, 'lemma_count_sub': _sb_lemma_count_sub, 'nbrsum': _mk_specfn(nbrsum, 2), 'lemma_nbrsum': _sb_lemma_nbrsum, 'wwalkr': _sb_wwalkr, 'lemma_wwalk': _sb_lemma_wwalk, 'lemma_sum_sub': _sb_lemma_sum_sub, 'lemma_renumber': _sb_lemma_renumber, 'lemma_wd_binary': _sb_lemma_wd_binary, 'lemma_dijkstra': _sb_lemma_dijkstra, 'last_masked_argmin': _sb_last_masked_argmin, 'msq': _sb_msq, 'lemma_msq': _sb_lemma_msq, 'lemma_msq_relabel': _sb_lemma_msq_relabel, 'lemma_modsum_def': _sb_lemma_modsum_def, 'lemma_walk_ends': _sb_lemma_walk_ends, 'lemma_nonneg_sum_zero': _sb_lemma_nonneg_sum_zero, 'mpw': _sb_mpw, 'mateq': _sb_mateq, 'lemma_mpw': _sb_lemma_mpw, 'lemma_pathsum_append': _sb_lemma_pathsum_append, 'lemma_ext_B': _sb_lemma_ext_B, 'lemma_Q_from_kernel': _sb_lemma_Q_from_kernel, 'lemma_QrawB_def': _sb_lemma_QrawB_def, 'lemma_trace_agg': _sb_lemma_trace_agg, 'lemma_relabel_B': _sb_lemma_relabel_B, 'lemma_agg_compose_B': _sb_lemma_agg_compose_B, 'lemma_Qrawg_def': _sb_lemma_Qrawg_def, 'lemma_agg_compose_g': _sb_lemma_agg_compose_g, 'lemma_qg_from_aggregate': _sb_lemma_qg_from_aggregate, 'lemma_flat_count': _sb_lemma_flat_count, 'unique_count': (lambda eng, st, node: st.ghost['unique_count_last']), 'rounds_to': _sb_rounds_to, 'where_index': _sb_where_index, 'where_index1': _sb_where_index1, 'argsort_inverse': _sb_argsort_inverse, 'exists': _sb_exists, 'lemma_tsum_add': _sb_lemma_tsum_add, 'lemma_tsum_int': _sb_lemma_tsum_int, 'lemma_full_offdiag': _sb_lemma_full_offdiag, 'flat_store_rows': (lambda eng, st, node: st.ghost['_flat_store'][0]), 'flat_store_cols': (lambda eng, st, node: st.ghost['_flat_store'][1]), 'flat_store_len': (lambda eng, st, node: st.ghost['_flat_store'][2]), 'lemma_tsum_plus_transpose': _sb_lemma_tsum_plus_transpose, 'lemma_image_count': _sb_lemma_image_count,
+    'Qmod': _sb_Qmod, 'walk': _sb_walk, 'isint': (lambda eng, st, node: z3.IsInt(to_z3(eng.ev(node.args[0], st), REAL))), 'sdist': _sb_sdist, 'lemma_walks': _sb_lemma_walks, 'Qrawg': _sb_Qrawg, 'umul': _sb_umul, 'lemma_umul_linear': _sb_lemma_umul_linear, 'QrawB': _mk_mod(QrawB, 1), 'tsum': _mk_specfn(tsum, 1), 'csum': _mk_specfn(csum, 2), 'lemma_modularity': _sb_lemma_modularity, 'lemma_knm_sums': _sb_lemma_knm_sums, 'lemma_relabel': _sb_lemma_relabel, 'lemma_relabel_g': _sb_lemma_relabel_g, 'lemma_agg_compose': _sb_lemma_agg_compose, 'pathsum': _sb_pathsum, 'lemma_pathsum': _sb_lemma_pathsum, 'appended_value': (lambda eng, st, node: st.ghost['_append_last'][1]), 'lemma_reach_closed': _sb_lemma_reach_closed, 'Not': (lambda eng, st, node: z3.Not(truth(eng.ev(node.args[0], st)))), 'wd': _sb_wd, 'lemma_wd': _sb_lemma_wd, 'swalk': _sb_swalk, 'lemma_floyd': _sb_lemma_floyd, 'lemma_wd_triangle': _sb_lemma_wd_triangle, 'lemma_sdist_support': _sb_lemma_sdist_support, 'inverse_lengths': _sb_inverse_lengths, 'lemma_cells': _sb_lemma_cells, 'lemma_count_support': _sb_lemma_count_support, 'lemma_count_diag': _sb_lemma_count_diag, 'lemma_count_sub': _sb_lemma_count_sub, 'nbrsum': _mk_specfn(nbrsum, 2), 'lemma_nbrsum': _sb_lemma_nbrsum, 'lemma_nbrsum_renumber': _sb_lemma_nbrsum_renumber, 'wwalkr': _sb_wwalkr, 'lemma_wwalk': _sb_lemma_wwalk, 'lemma_sum_sub': _sb_lemma_sum_sub, 'lemma_renumber': _sb_lemma_renumber, 'lemma_wd_binary': _sb_lemma_wd_binary, 'lemma_dijkstra': _sb_lemma_dijkstra, 'last_masked_argmin': _sb_last_masked_argmin, 'msq': _sb_msq, 'lemma_msq': _sb_lemma_msq, 'lemma_msq_relabel': _sb_lemma_msq_relabel, 'lemma_modsum_def': _sb_lemma_modsum_def, 'lemma_walk_ends': _sb_lemma_walk_ends, 'lemma_nonneg_sum_zero': _sb_lemma_nonneg_sum_zero, 'mpw': _sb_mpw, 'mateq': _sb_mateq, 'lemma_mpw': _sb_lemma_mpw, 'lemma_pathsum_append': _sb_lemma_pathsum_append, 'lemma_ext_B': _sb_lemma_ext_B, 'lemma_Q_from_kernel': _sb_lemma_Q_from_kernel, 'lemma_QrawB_def': _sb_lemma_QrawB_def, 'lemma_trace_agg': _sb_lemma_trace_agg, 'lemma_relabel_B': _sb_lemma_relabel_B, 'lemma_agg_compose_B': _sb_lemma_agg_compose_B, 'lemma_Qrawg_def': _sb_lemma_Qrawg_def, 'lemma_agg_compose_g': _sb_lemma_agg_compose_g, 'lemma_qg_from_aggregate': _sb_lemma_qg_from_aggregate, 'lemma_flat_count': _sb_lemma_flat_count, 'unique_count': (lambda eng, st, node: st.ghost['unique_count_last']), 'rounds_to': _sb_rounds_to, 'where_index': _sb_where_index, 'where_index1': _sb_where_index1, 'argsort_inverse': _sb_argsort_inverse, 'exists': _sb_exists, 'lemma_tsum_add': _sb_lemma_tsum_add, 'lemma_tsum_int': _sb_lemma_tsum_int, 'lemma_full_offdiag': _sb_lemma_full_offdiag, 'flat_store_rows': (lambda eng, st, node: st.ghost['_flat_store'][0]), 'flat_store_cols': (lambda eng, st, node: st.ghost['_flat_store'][1]), 'flat_store_len': (lambda eng, st, node: st.ghost['_flat_store'][2]), 'lemma_tsum_plus_transpose': _sb_lemma_tsum_plus_transpose, 'lemma_image_count': _sb_lemma_image_count,
     'frow': (lambda eng, st, node: frow(to_z3(eng.ev(node.args[0], st), INT), to_z3(eng.ev(node.args[1], st), INT))), 'fcol': (lambda eng, st, node: fcol(to_z3(eng.ev(node.args[0], st), INT), to_z3(eng.ev(node.args[1], st), INT))), 'lemma_agg_symm': _sb_lemma_agg_symm, 'lemma_agg_identity': _sb_lemma_agg_identity, 'lemma_q_from_aggregate': _sb_lemma_q_from_aggregate,
     'lemma_masked_degree': _sb_lemma_masked_degree, 'lemma_degree_monotone': _sb_lemma_degree_monotone, 'result': _sb_result, 'raised': _sb_raised, 'shape_is': _sb_shape_is,
 }
